@@ -307,6 +307,12 @@ def gen_spec(rng, ds):
         opts["obsrange"] = [rng.choice([-5.0, 0.0, 2.0]), rng.choice([10.0, 15.0, 40.0])]
     if rng.random() < 0.15 and len(times) > 1:
         opts["dates"] = sorted(set(refmodel.date_of(t) for t in rng.sample(times, rng.randint(1, len(times)))))
+    if len(times) > 20 and rng.random() < 0.7:
+        # a long series: long -d lists (most days of the file, several runs a day), possibly with -tod
+        from vmon.props import c03
+        o2, _ = c03.gen_opts_long(rng, ds)
+        opts.pop("times", None)
+        opts.update({k: v for k, v in o2.items() if k in ("dates", "tods")})
     spec["opts"] = opts
     if ds.get("clim") is not None and rng.random() < 0.6:
         spec["clim"] = True
@@ -342,6 +348,10 @@ def run_semantic(desc, ctx):
         ds = gen.make_dataset(rng, n_inputs=rng.choice([1, 2, 3]), clim=rng.random() < 0.3, miss=rng.choice([0.0, 0.1, 0.2]),
                               integerish=rng.random() < 0.4, vrange=rng.choice([(-5, 20), (0, 6), (1, 15)]),
                               prob=withq, pit=withq, thresholds=[0.0, 5.0], quantiles=[0.25, 0.75])
+        if ci % 8 == 7:
+            from vmon.props import c03
+            ds = c03.make_long(rng)
+            ctx.count("long_series_cases")
         d = os.path.join(ctx.workdir, "s%d" % ci)
         os.makedirs(d, exist_ok=True)
         paths, cpath = gen.materialize(ds, d, rng if rng.random() < 0.5 else None)
